@@ -363,23 +363,22 @@ def Tree.clone (o : Tree) (io : Bool) : Option Tree :=
 def Tree.makeImmutable (tr : Tree) : Tree := { tr with immutable := true }
 
 /-- `insert_element(elt, self.in_order)` -/
-def Tree.insert (tr : Tree) (e : Elt) : Outcome (Tree × Option Elt) :=
-  if tr.immutable then .immutableErr
+def Tree.insert (tr : Tree) (e : Elt) : Tree × Outcome (Option Elt) :=
+  if tr.immutable then (tr, .immutableErr)
   else
     let (r, old) := insertRoot tr.t tr.inOrder tr.root e
-    .ok ({ tr with root := r, size := if old.isNone then tr.size + 1 else tr.size }, old)
+    ({ tr with root := r, size := if old.isNone then tr.size + 1 else tr.size }, .ok old)
 
 /-- `_delete(key, exact)`; on `ValueError` the structural changes made on the way down stay -/
-def Tree.delete (tr : Tree) (key : Nat) (exact : Option Elt) : Outcome (Tree × Option Elt) × Tree :=
-  if tr.immutable then (.immutableErr, tr)
+def Tree.delete (tr : Tree) (key : Nat) (exact : Option Elt) : Tree × Outcome (Option Elt) :=
+  if tr.immutable then (tr, .immutableErr)
   else
     match deleteRoot tr.t tr.root key exact with
     | (r, .ok old) =>
-      let tr' := { tr with root := r, size := if old.isSome then tr.size - 1 else tr.size }
-      (.ok (tr', old), tr')
-    | (r, .valueError) => (.valueError, { tr with root := r })
+      ({ tr with root := r, size := if old.isSome then tr.size - 1 else tr.size }, .ok old)
+    | (r, .valueError) => ({ tr with root := r }, .valueError)
 
-def Tree.get (tr : Tree) (key : Nat) : Option Elt := get (height tr.root) tr.root key
+def Tree.get (tr : Tree) (key : Nat) : Option Elt := BTree.get (height tr.root) tr.root key
 
 def Tree.items (tr : Tree) : List Elt := flat tr.root
 
